@@ -157,7 +157,20 @@ def volume(n_fp=4):
 DAY_MS = 86400000
 
 
-def image(truth, level, t0_ms=45296789, dt_ms=1):
+# per-line prefix fields (offset of a big-endian uint32) that the reader keeps as one value per line
+NUMERIC_FIELDS = {
+    "1.5": [56] + list(range(64, 108, 4)) + list(range(132, 160, 4)) + [164, 168, 176, 180],
+    "1.1": [56] + list(range(68, 84, 4)) + [92] + list(range(100, 124, 4))
+    + list(range(132, 216, 4)) + [216, 220],
+}
+# per-line fields that the reader reduces to ONE value per image (taken from the first line)
+REDUCED_FIELDS = {"1.5": [16, 32, 60, 128], "1.1": [16, 32, 60]}
+NUMERIC_FIELDS["3.1"] = NUMERIC_FIELDS["1.5"]
+REDUCED_FIELDS["3.1"] = REDUCED_FIELDS["1.5"]
+UPDATE_FLAG_11 = 128      # enum repeat=0 / update=1
+
+
+def image(truth, level, t0_ms=45296789, dt_ms=1, style=None, seed=0):
     """truth: IU2 (N,P) uint16 / C*8 (N,P,2) uint32 bit patterns -> (bytes, extents)
 
     line i is stamped t0_ms + i*dt_ms milliseconds after 2020-02-29T00:00 (day of year 60): an
@@ -180,6 +193,7 @@ def image(truth, level, t0_ms=45296789, dt_ms=1):
     out = [bytes(h)]
     extents = []
     pos = 720
+    prng = random.Random(seed * 7919 + 13)
     for i in range(n_lines):
         r = bytearray(prefix)
         r[:12] = _preamble(i + 2, 50, rt, 18, 20, reclen)
@@ -189,10 +203,47 @@ def image(truth, level, t0_ms=45296789, dt_ms=1):
         r[36:48] = struct.pack(">III", 2020, 60 + t // DAY_MS, t % DAY_MS)
         if level == "1.1":
             r[SIGNAL_ACQ_US:SIGNAL_ACQ_US + 8] = struct.pack(">Q", (t % DAY_MS) * 1000 + 7)
+        if style:
+            _style_prefix(r, i, n_px, level, style, prng)
         out.append(bytes(r) + raw[i].tobytes())
         extents.append((pos, pos + prefix, pos + reclen))
         pos += reclen
     return b"".join(out), extents
+
+
+def _style_prefix(r, i, n_px, level, style, prng):
+    """swarm-varied content of the line prefix; whatever the prefix says, every stored sample of
+    the line remains part of the image (fill pixels are samples too)"""
+    fill = style.get("fill", "zero")
+    if fill == "all-data":
+        r[20:32] = struct.pack(">III", 0, n_px, 0)
+    elif fill == "consistent":
+        left = prng.randrange(0, n_px + 1) if prng.random() < 0.5 else 0
+        right = prng.randrange(0, n_px - left + 1)
+        if prng.random() < 0.3:
+            right = n_px - left       # no data pixels at all in this line
+        r[20:32] = struct.pack(">III", left, n_px - left - right, right)
+    elif fill == "inconsistent":
+        r[20:32] = struct.pack(">III", prng.randrange(4), prng.randrange(n_px + 3),
+                               prng.randrange(4))
+    flags = style.get("flags", "constant")
+    if flags != "constant":
+        for off in REDUCED_FIELDS[level]:
+            if flags == "first-line":
+                v = 1 if i == 0 else 0
+            elif flags == "last-line":
+                v = 0 if i == 0 else (1 if prng.random() < 0.2 else 0)
+            else:
+                v = prng.randrange(3)
+            if off == 16:
+                v += 1
+            r[off:off + 4] = struct.pack(">I", v)
+        if level == "1.1":
+            r[UPDATE_FLAG_11:UPDATE_FLAG_11 + 4] = struct.pack(
+                ">I", (1 if i == 0 else 0) if flags == "first-line" else prng.randrange(2))
+    if style.get("numeric") == "varying":
+        for off in NUMERIC_FIELDS[level]:
+            r[off:off + 4] = struct.pack(">I", prng.randrange(2**31))
 
 
 def make_truth(level, lines, pixels, data_seed, mode, n_special):
@@ -249,7 +300,8 @@ def build(plan):
         name = f"IMG-{im['pol']}-{SCENE}-{pid}" + (f"-{im['scan']}" if im.get("scan") else "")
         t, planted = make_truth(level, im["lines"], im["pixels"], plan["data_seed"] * 131 + k,
                                 plan.get("mode", "normal"), im.get("n_special", 0))
-        data, ext = image(t, level, plan.get("t0_ms", 45296789), plan.get("dt_ms", 1))
+        data, ext = image(t, level, plan.get("t0_ms", 45296789), plan.get("dt_ms", 1),
+                          style=plan.get("prefix"), seed=plan["data_seed"] * 131 + k)
         p.files[name] = data
         p.truth[name] = t
         p.extents[name] = ext
@@ -282,14 +334,17 @@ def build(plan):
 POLS = ["HH", "HV", "VH", "VV"]
 
 
-def gen_plan(rng, max_lines=40, max_pixels=32, max_images=8, level=None, big=False, large=0.03):
+def gen_plan(rng, max_lines=40, max_pixels=32, max_images=8, level=None, big=False, large=0.03,
+             huge=0.012, n_images=None):
     level = level or rng.choice(["1.1", "1.5", "1.5", "3.1"])
     n_img = rng.choice([1, 1, 2, 2, 3, rng.randint(1, max_images)])
+    if n_images is not None:
+        n_img = n_images
     scansar = rng.random() < 0.4
     combos = []
     if scansar:
         method = rng.choice("BF")
-        scans = rng.sample(range(10), rng.randint(1, 5))
+        scans = rng.sample(range(10), rng.randint(1, 5) if n_img <= 4 else rng.randint(2, 5))
         combos = [(pol, f"{method}{s}") for pol in POLS for s in scans]
     else:
         combos = [(pol, None) for pol in POLS]
@@ -320,6 +375,15 @@ def gen_plan(rng, max_lines=40, max_pixels=32, max_images=8, level=None, big=Fal
                 rng.randint(100, 300) if level == "1.1" else rng.randint(500, 1400))
         same_shape = True
         combos = combos[:rng.choice([1, 1, 2])]
+    if rng.random() < huge:
+        # one image file of 5.5-10 MB made of 20-40 kB records (above the 5 MiB block size that
+        # buffered / cached file objects and "big request" code paths commonly use)
+        base = (rng.randint(150, 260),
+                rng.randint(2500, 5000) if level == "1.1" else rng.randint(10000, 20000))
+        while PREFIX[level] + base[1] * (8 if level == "1.1" else 2) < 5.6 * 2**20 / base[0]:
+            base = (base[0] + 20, base[1])
+        same_shape = True
+        combos = combos[:1]
     images = []
     for pol, scan in combos:
         n, px = base if same_shape else shape()
@@ -335,6 +399,13 @@ def gen_plan(rng, max_lines=40, max_pixels=32, max_images=8, level=None, big=Fal
         "n_ch": rng.choice([1, 2, 4, 16]),
         "fac_len": [rng.randint(70, 600) for _ in range(4)],
         "extra_files": rng.choice([[], [], ["README.txt"], ["KML-browse.kml", "notes.index"]]),
+    }
+    # content of the per-line prefixes: fill-pixel counts, per-image flags that change from line to
+    # line, numeric per-line metadata
+    plan["prefix"] = {
+        "fill": rng.choice(["zero", "zero", "all-data", "consistent", "consistent", "inconsistent"]),
+        "flags": rng.choice(["constant", "constant", "first-line", "last-line", "random"]),
+        "numeric": rng.choice(["zero", "varying", "varying"]),
     }
     # acquisition time base: mostly mid-day, sometimes crossing midnight inside the image
     n_max = max(im["lines"] for im in images)
